@@ -62,7 +62,9 @@ def w(v):
         return "1" if v else "0"
     if isinstance(v, int):
         return str(v)
-    raise TypeError(f"cannot encode {v!r} as a protocol word")
+    # a value the Int-typed model cannot represent (e.g. a float tick or bin): send a word the driver
+    # rejects, so the case shows up as a correspondence disagreement instead of crashing the harness
+    return "F" + repr(v).replace(" ", "")
 
 
 def enc_msg(p):
